@@ -161,7 +161,7 @@ PROPS = {
                     "Ldlm.Core.clearLoop_releases", "Ldlm.Core.disconnect_keeps_booked"],
         status={P + "C06.destroy_releases_partial": "partial (hypothesis Clean: no grant of the hold in flight when the session entry is deleted)",
                 P + "C06.late_grant_leaks": "refutation witness (K2)", P + "C06.timer_for_dead_hold": "refutation witness (K2, second window)"},
-        streams=[CONC, SEQ],
+        streams=[CONC, SEQ, RESTCONC],
         level_text="M3b follows one hold of the ending session through every thread that can touch it (its grant in three steps, any number of Unlock threads, the lease callback, the DestroySession thread), one step per call into a manager, for EVERY schedule: if the hold's grant had been answered when the session entry was deleted (Clean), then once nothing is in flight the hold is out of the table, has no lease-timer entry and no bookkeeping entry - whichever of Unlock / lease callback / session end got there first; after the grant the hold only ever leaves the table (unique releaser). The unrestricted statement is false of the code (K2: a grant in flight at D1 leaks the hold; a grant between AddLock and timer Add leaves an armed timer for a dead hold) - kernel-checked witnesses. DestroySession is pinned to its source text. Sequential server model M2, every reachable state, clearing on: after a session end no hold the session had is in the lock table any more (neither as key nor queued) and every hold of every other session is still booked and held (session_end_exact_reachable). Tied to the code by exploring session end || {TryLock, blocked Lock, Unlock, expiry} of the same session with another session holding, with hold-left / listing / other-session / panic monitors, and by manager-call trace validation: every distinct history of calls into the three managers for each observed hold of the ending session must be a run of M3b with M3b's results (driver linsess).",
         level_note="PARTIAL by K2 (recorded, not repaired: a repair needs AddLock to refuse ended sessions, an interface change). 'Other sessions untouched' is structural in the model (one hold = one state) and checked on the code by the monitors. With no-clear-on-disconnect DestroySession returns after D1 (M2: Core.destroy). The panic half of D10 (RemoveLock on a deleted entry) was repaired with D2 (fix: e6a606e). gRPC/REST delivery of ConnEnd is exercised by C20/stack streams, not modelled here.",
         technique="Lean 4 proof (inductive invariant over all schedules, backwards-propagating ghost flag for the excluded window) + controlled-interleaving exploration",
